@@ -401,6 +401,14 @@ def _node(draw, cfg, depth, gen, kinds=None):
         want_props = kind == "Object" or (kind == "Element" and draw(st.integers(0, 2)) == 0)
         if want_props:
             node["props"] = draw(_props_strategy(cfg, depth, gen))
+            if node.get("base"):
+                # effective JSON names must stay unique in the merged class (ambiguous otherwise)
+                idx_done = index(gen.done)
+                _, _, inherited = flat_class(idx_done[node["base"]["ref"]], idx_done)
+                eff = lambda p: p["source"] if p.get("source") is not None else p["name"]  # noqa: E731
+                for p in node["props"]:
+                    if any(eff(q) == eff(p) and q["name"] != p["name"] for q in inherited):
+                        p["source"] = "zz%d%s" % (node["id"], p["name"])  # fresh, unambiguous JSON name
     elif kind == "Object":
         node["props"] = []
     if kind in ("Object", "String", "Integer", "Element", "Array", "Number"):
